@@ -44,7 +44,7 @@ var controls = []string{"\x01", "\x00", "\x1f", "\x7f", "\t", "\n", "\r"}
 func symCanon(sym string) string {
 	switch sym {
 	case "U":
-		return "é"
+		return "š" // U+0161: its low byte is 'a'
 	case "C":
 		return "\x01"
 	}
@@ -124,6 +124,13 @@ func checkQName(row mQRow, conc []string, report func(Mismatch)) {
 	}
 	if got := parser.ValidateDeviceName(s) == nil; got != row.Name {
 		report(Mismatch{Props: []string{"C07"}, What: "ValidateDeviceName", Want: row.Name, Got: got, Note: fmt.Sprintf("%q", s)})
+	}
+	// the verdicts do not depend on what was validated before
+	if got := parser.ValidateVendorName(s) == nil; got != row.VC {
+		report(Mismatch{Props: []string{"C07"}, What: "ValidateVendorName-after-ValidateDeviceName", Want: row.VC, Got: got, Note: fmt.Sprintf("%q", s)})
+	}
+	if got := parser.IsQualifiedName(s); got != row.Parse.OK {
+		report(Mismatch{Props: []string{"C07"}, What: "IsQualifiedName-second-call", Want: row.Parse.OK, Got: got, Note: fmt.Sprintf("%q", s)})
 	}
 }
 
